@@ -10,6 +10,8 @@ from concurrent.futures import ThreadPoolExecutor
 MODULES = {
     "C01": ["test_mechanics", "test_tools", "test_mpc", "test_planestrain", "test_composite", "test_bilinearform"],
     "C02": ["test_form", "test_bilinearform", "test_basis", "test_mechanics"],
+    "C03": ["test_mechanics", "test_constitution", "test_constitution_jax", "test_composite", "test_tools", "test_job", "test_readme"],
+    "C11": ["test_mechanics", "test_tools", "test_job"],
     "C04": ["test_element", "test_quadrature", "test_region"],
     "C05": ["test_element", "test_quadrature", "test_region", "test_tools"],
     "C06": ["test_region", "test_field", "test_dtype", "test_mechanics"],
